@@ -268,7 +268,9 @@ func parent(stream, dir string, seed int64, tier string) {
 			continue
 		}
 		var m Meta
-		if json.Unmarshal(b, &m) != nil {
+		dec := json.NewDecoder(bytes.NewReader(b))
+		dec.UseNumber() // replays carry 63-bit seeds: float64 would round them
+		if dec.Decode(&m) != nil {
 			continue
 		}
 		merged.Cases += m.Cases
